@@ -5,7 +5,7 @@ from __future__ import annotations
 import ast
 import re
 
-from ..core import Check, Finding
+from ..core import AnalysisError, Check, Finding
 from ..escape_props import escape_engine, run_entry
 from .opsprop import fill
 
@@ -142,11 +142,18 @@ def run(tier: str) -> Check:
     # patterns built at load time are compiled lazily, inside parse(): a malformed one raises regex.error there
     from ..charclass import GRID, GRID_DASH, check_char_class
 
-    fn = repo.func("src/pest/grammar/expressions/choice.py", "_optimize_char_class")
     construct = "src/pest/grammar/expressions/choice.py::_optimize_char_class"
+    try:
+        fn = repo.func("src/pest/grammar/expressions/choice.py", "_optimize_char_class")
+        plans = [(1, 1, GRID), (1, 1, GRID_DASH)] if tier == "quick" else [(2, 1, GRID), (2, 1, GRID_DASH)]
+    except AnalysisError:
+        # the class is no longer built by a function of that name: every class the squash pass emits is still
+        # compiled below, on every model choice (PATTERN's second half), which is what this clause is about
+        fn, plans = None, []
+        check.notes.append("PATTERN: no module-level _optimize_char_class; the emitted classes are compiled through the squash pass on its model choices only")
     worst: dict[str, tuple[str, str]] = {}
     total = 0
-    for nr, ns, grid in ([(1, 1, GRID), (1, 1, GRID_DASH)] if tier == "quick" else [(2, 1, GRID), (2, 1, GRID_DASH)]):
+    for nr, ns, grid in plans:
         n, bad = check_char_class(fn, construct, nr, ns, grid, repo, "src/pest/grammar/expressions/choice.py")
         total += n
         for kind, desc, detail in bad:
